@@ -181,6 +181,11 @@ def startDoc (f : String) : Option Doc :=
     let s ← decStr t
     let kids := (parse s).tree.children
     pure { kids := kids, handles := (paraPositions kids).map some }
+  | ["w", t] => do
+    let s ← decStr t
+    let w ← deb822Wrap none none (parse s).tree
+    let kids := w.children
+    pure { kids := kids, handles := (paraPositions kids).map some }
   | ["d", d] => do
     let d ← decDoc (d.replace "=" ":")
     let kids := docOfParas (d.map paraOfPairs)
